@@ -25,6 +25,7 @@ for ID in "$@"; do
   grep -E "^(VIOLATION|KNOWN-FINDING|MACHINERY)" "$S/out.$ID" | sed "s|$S|<scratch>|g" | head -5
   grep -E "violation signature" "$S/out.$ID" | head -5
   [ $rc -ge 2 ] && tail -20 "$S/out.$ID"
+  [ -n "${FULL:-}" ] && tail -${FULL} "$S/out.$ID"
   echo "MUTANT-RESULT id=$ID exit=$rc ($( [ $rc -eq 1 ] && echo DETECTED || echo not-detected ))"
   [ $rc -ne 1 ] && rc_all=1
 done
